@@ -530,6 +530,10 @@ func TestVerifC16(t *testing.T) {
 			vC16RunMatrix(k, last)
 			return
 		}
+		if last := c.l[len(c.l)-1]; kind == 30 && last.isList() && len(last.l) == 8 && last.l[0].isBytes() && string(last.l[0].b) == "hist" {
+			vC16RunHist(k, last)
+			return
+		}
 		vC16RunStruct(k, c)
 	}
 	if k.replay != nil {
@@ -556,6 +560,7 @@ func TestVerifC16(t *testing.T) {
 	}
 	vC16Matrix(k)
 	vC16Crafted(k)
+	vC16Histories(k)
 	n := k.N(3000, 30000)
 	for i := 0; i < n; i++ {
 		runOne(vC16GenStruct(k, k.rnd))
